@@ -517,7 +517,10 @@ def math_result(fn, pos, *operands):
     except (ValueError, OverflowError) as e:
         raise CklRuntimeError(
             ValueString("ERROR"),
-            fn.__name__ + "(" + ", ".join(str(x) for x in operands) + "): "
+            fn.__name__ + "("
+            + ", ".join(
+                str(ValueInt(x) if isinstance(x, int) else x) for x in operands
+            ) + "): "
             + str(e),
             pos,
         )
@@ -954,7 +957,7 @@ class FuncBitShiftLeft(ValueFunc):
         n = args.getInt("n").value
         if n < 0:
             raise CklRuntimeError(
-                ValueString("ERROR"), f"Cannot shift by {n} bits", pos
+                ValueString("ERROR"), f"Cannot shift by {ValueInt(n)} bits", pos
             )
         if n >= 32:
             return ValueInt(0)
@@ -984,7 +987,7 @@ class FuncBitShiftRight(ValueFunc):
         n = args.getInt("n").value
         if n < 0:
             raise CklRuntimeError(
-                ValueString("ERROR"), f"Cannot shift by {n} bits", pos
+                ValueString("ERROR"), f"Cannot shift by {ValueInt(n)} bits", pos
             )
         return ValueInt((a & 0xFFFFFFFF) >> n)
 
@@ -1090,7 +1093,7 @@ class FuncChr(ValueFunc):
         n = args.getInt("n").value
         if n < 0 or n > 0x10FFFF:
             raise CklRuntimeError(
-                ValueString("ERROR"), f"No character has the code {n}", pos
+                ValueString("ERROR"), f"No character has the code {ValueInt(n)}", pos
             )
         return ValueString(chr(n))
 
